@@ -137,6 +137,9 @@ class _G:
                 b.raw(_prose(r, o, form))
             if before:
                 b.comment_nl()
+                lead = _prose(r, o, form)
+                if lead and r.random() < 0.5:
+                    b.raw(lead + " ")       # text (possibly multi-byte) in front of the tag on its continuation line
             for i, (kind, src, attrs) in enumerate(pieces):
                 if i:
                     b.raw(" " + _prose(r, o, form) + " ")
